@@ -200,17 +200,28 @@ try_time:
 		sp = str;
 		goto out;
 	} else if ((sp++, d.st.m = strtoi_lim(sp, &sp, 0, 59)) < 0) {
+		/* an hour and a colon isn't a time, leave them alone */
 		d.st.m = 0;
+		sp = str;
 		goto out;
 	} else if (*sp != ':') {
 		goto eval_time;
-	} else if ((sp++, d.st.s = strtoi_lim(sp, &sp, 0, 60)) < 0) {
-		d.st.s = 0;
-	} else if (*sp != '.') {
-		goto eval_time;
-	} else if ((sp++, d.st.ns = strtoi_lim(sp, &sp, 0, 999999999)) < 0) {
-		d.st.ns = 0;
-		goto eval_time;
+	}
+	with (const char *tp) {
+		/* separators without their field aren't ours, stay on them */
+		if ((d.st.s = strtoi_lim(sp + 1U, &tp, 0, 60)) < 0) {
+			d.st.s = 0;
+			goto eval_time;
+		}
+		sp = tp;
+		if (*sp != '.') {
+			goto eval_time;
+		} else if ((d.st.ns = strtoi_lim(
+				    sp + 1U, &tp, 0, 999999999)) < 0) {
+			d.st.ns = 0;
+			goto eval_time;
+		}
+		sp = tp;
 	}
 eval_time:
 	if (UNLIKELY(d.st.h == 24)) {
